@@ -158,6 +158,33 @@ def refProg (env : Env) (h0 : Heap) (p : Prog) (target : Val) : RefRes :=
   | .flattenFn sub i l => refFlattenFn env h0 sub i l target
   | .mergeFn sub i op => refMerge env h0 sub i op target
 
+/-! ### vocabulary of the special-case theorems -/
+
+/-- the integers a list of int / bool values denotes -/
+def allInts : List Val → Option (List Int)
+  | [] => some []
+  | v :: vs =>
+    match asInt v, allInts vs with
+    | some i, some is => some (i :: is)
+    | _, _ => none
+
+/-- the entry lists of a list of dict objects -/
+def dictsOf (h0 : Heap) : List Val → Option (List (List (Val × Val)))
+  | [] => some []
+  | .ref a :: vs =>
+    match h0[a]?, dictsOf h0 vs with
+    | some (.dict _ es), some ds => some (es :: ds)
+    | _, _ => none
+  | _ :: _ => none
+
+/-- the value of the LAST pair whose key equals `k` -/
+def lastPair : List (Val × Val) → Val → Option Val
+  | [], _ => none
+  | p :: ps, k =>
+    match lastPair ps k with
+    | some v => some v
+    | none => if pyKeyEq p.1 k then some p.2 else none
+
 /-! ### observations -/
 
 /-- what one evaluation shows -/
